@@ -34,6 +34,10 @@ def instances(tier):
     twins = [i for i in C09.instances("quick") if i.name in ("param_dna_t0", "param_prot_t3")]
     twins += [i for i in C11.instances("quick") if i.name in ("m1_n3_m2", "m2_n3_m2", "m3_n3_m2", "m4_n3_m2")]
     twins += [i for i in C10.instances("quick") if i.name.startswith("weave_a2_b1_pla3")]
+    from vk.props import C17
+    for i in C17.instances("quick"):
+        if i.name == "score_ns2_12_w2_3":   # kalign_msa_compare's counters live in fresh heap memory: nondeterministic under CBMC unless initialised
+            out.append(dataclasses.replace(i, ob="O2", name="heap_" + i.name, desc="result of a compare call does not depend on what the heap held before; " + i.desc))
     for i in twins:
         out.append(dataclasses.replace(i, ob="O1", name="nds_" + i.name, flags=list(i.flags) + ["--nondet-static"],
                                        desc="--nondet-static twin: every static-storage object starts arbitrary; " + i.desc))
